@@ -175,8 +175,49 @@ def _work(chunk):
     return res
 
 
+def pair_work(args):
+    """history (in)dependence of autosort within one process: for a step
+    set, every ordered pair (l1, l2) of its orderings - or, for the large
+    sets in the quick tier, two sequential sweeps - `autosort(l1)` is
+    called and then every sorting clause is checked on l2."""
+    from nanite import preproc
+    steps, all_pairs = args
+    ids, req, opt = _meta()
+    perms = [list(p) for p in itertools.permutations(steps)]
+    if not perms or not ref_has_required(perms[0], req):
+        return [], 0
+    out = []
+    n = 0
+    if all_pairs:
+        seq = [(l1, l2) for l1 in perms for l2 in perms]
+    else:
+        seq = list(zip(perms[:-1], perms[1:])) \
+            + list(zip(perms[::-1][:-1], perms[::-1][1:]))
+    for l1, l2 in seq:
+        try:
+            preproc.autosort(list(l1))
+        except BaseException:
+            pass
+        vs, _ = check_sort_case(l2)
+        n += 1
+        for v in vs:
+            v["case"] = {"kind": "pair", "first": l1, "sel": l2}
+            v["site"] = "autosort-after-autosort"
+        out += vs
+        if out:
+            break
+    return out, n
+
+
 def replay(doc):
+    from nanite import preproc
     case = doc["case"]
+    if case["kind"] == "pair":
+        try:
+            preproc.autosort(list(case["first"]))
+        except BaseException:
+            pass
+        return check_sort_case(case["sel"])[0]
     if case["kind"] == "sort":
         return check_sort_case(case["sel"])[0]
     return check_apply_case(case["sel"])[0]
@@ -215,6 +256,19 @@ def run(tier):
             for k, v in st.items():
                 rep.add(f"{kind}_{k}", v)
             outcomes.add((kind, tuple(sorted(st.items())), len(vs) > 0))
+    # sequences of two autosort calls on orderings of the same step set
+    limit = 4 if tier == "quick" else 6
+    pjobs = []
+    for k in range(1, len(ids) + 1):
+        for steps in itertools.combinations(ids, k):
+            pjobs.append((list(steps), k <= limit))
+    npairs = 0
+    for vs, n in pmap(pair_work, shuffled(pjobs)):
+        rep.extend(vs)
+        npairs += n
+    rep.add("transitions", npairs)
+    rep.add("evaluations", npairs)
+    rep.set("autosort_call_pairs", npairs)
     rep.set("states", len(sels))
     rep.set("traces_validated_against_impl", rep.cov["transitions"])
     rep.set("distinct_nontrivial", rep.cov.get("sort_moved", 0)
@@ -223,7 +277,8 @@ def run(tier):
             "non-trivial = autosort had to move a step, or apply rejected")
     rep.set("distinct_outcome_classes", len(outcomes))
     rep.set("exhaustive", True)
-    rep.set("bounds", {"steps": ids, "unknown_insertions_max_len": maxlen})
+    rep.set("bounds", {"steps": ids, "unknown_insertions_max_len": maxlen,
+                       "all_ordered_pairs_up_to_set_size": limit})
     rep.sample({"op": "autosort", "input": sels[-1],
                 "output": _safe_sort(sels[-1])})
     rep.sample({"op": "autosort", "input": sels[500],
